@@ -3,9 +3,9 @@
 PROPS = {
     "C01": dict(forbid_seq=[dict(cid="evalrec.bias_unread", file="src/eval.rs", seq=".acceleration_bias", what="the recursive calls of eval() in the OPERATION arm are assumed to be independent of `bias`: the field `acceleration_bias` is written and never read")], units=["RAT", "EVALOPS", "EVALARMS", "EVALOPFOLD"], standin=True, level="proof",
                 explanation="16 Rational operator impls, recip, pow, eval::{add,sub,mul,div,pow} on plain numbers (exact field operations, unbounded pow loop) proved by Verus; the OPERATION fold / NUMBER / PERCENTAGE arms of eval() are a bounded stand-in"),
-    "C02": dict(units=["POWERS", "COMPOUND", "EVALOPS"], standin=True, level="proof",
+    "C02": dict(forbid_seq=[dict(cid="evalrec.bias_unread", file="src/eval.rs", seq=".acceleration_bias", what="the recursive call of eval() on the operand of a cast is assumed to be independent of `bias`: the field `acceleration_bias` is written and never read")], units=["POWERS", "COMPOUND", "EVALOPS", "EVALOPFOLD"], standin=True, level="proof",
                 explanation="Powers::insert representation invariant, base_units, Compound::factor <=> same dimensions, eval::{add,sub} verdict / error mapping / unit adoption proved by Verus; OP_CAST arm bounded"),
-    "C03": dict(units=["RAT", "COMPOUND", "TABLES"], standin=True, level="proof",
+    "C03": dict(forbid_seq=[dict(cid="evalrec.bias_unread", file="src/eval.rs", seq=".acceleration_bias", what="the recursive call of eval() on the operand of a cast is assumed to be independent of `bias`: the field `acceleration_bias` is written and never read")], units=["RAT", "COMPOUND", "TABLES", "EVALOPFOLD"], standin=True, level="proof",
                 explanation="factor value law v' = v*scale(src)/scale(dst), apply_conversion, Rational::pow, prefix constants, conversion laws as lemmas; OP_CAST arm bounded"),
     "C04": dict(units=["COMPOUND", "EVALOPS"], standin=True, level="proof",
                 explanation="Compound::mul / reconstruct / inner_match / pow preserve (value*scale, dims); eval::{mul,div,pow}; bases_match verified after R15 (Iterator::all inlined)"),
@@ -17,7 +17,7 @@ PROPS = {
                 explanation="field laws as lemmas over the proved postconditions of eval::{add,sub,mul,div}"),
     "C12": dict(units=["LEXER", "PARSER", "GRAMMAR"], kani="leaves", standin=True, level="proof",
                 explanation="Lexer::next / next_escape / consume_* : progress, non-empty, contiguous, char-boundary, terminating for every string (Verus, against the str model); Parser methods keep leaves ++ buffer == lexer history; every grammar function terminates, never gets a builder error, and root()/parse_root attribute every lexed token to exactly one leaf; peek/peek2/step are trusted leaves (conformance-sampled)"),
-    "C09": dict(units=["TABLES", "COMPOUND"], standin=True, level="proof",
+    "C09": dict(forbid_seq=[dict(cid="evalrec.bias_unread", file="src/eval.rs", seq=".acceleration_bias", what="the recursive call of eval() on the operand of a cast is assumed to be independent of `bias`: the field `acceleration_bias` is written and never read")], units=["TABLES", "COMPOUND", "EVALOPFOLD"], standin=True, level="proof",
                 explanation="CELSIUS offset constant and both FAHRENHEIT closures against the defining formulas (TABLES); apply_conversion Offset/Methods arms, check_offset, Compound::factor chain postcondition and offset guard, Compound::mul offset guard (COMPOUND); formulas, composition, inverse as lemmas over those contracts"),
     "C17": dict(units=[], kani="ids", standin=True, level="proof",
                 explanation="Kani function contract on the real id_to_derived (every u32 id decodes to a unit carrying that id), every Derived static decodes through its own id to itself, ids equal the pinned list; serde derive output is a bounded stand-in"),
